@@ -9,6 +9,7 @@
    C01/C02.  The host's float conversions are parameters; the only fact used about them is
    that widening an f32 and narrowing it back is the identity. *)
 From PV Require Import Base MachineInt VarintParams GenLoops DataModel Schema SchemaConv Conform Dyn JsonOf Ser VarintCore DynAgree DynAgreeDe DynArmDecl GenDynArms DynArms DynCompositeExpected GenDynComposite GenDynHelpers DynArmFacts.
+From PV Require Import DynSizeDefs DynAgreeNz.
 Open Scope N_scope.
 
 (* encoding the serde_json form of a value under its schema yields exactly the bytes the static
@@ -28,6 +29,16 @@ Theorem C17_decode_agrees : forall widen d v s,
   conforms d v s = true -> unamb v = true -> in_scope s = true -> small_seqs v = true ->
   from_slice_dyn widen s (enc (erase v)) = DOk (json_of widen v).
 Proof. exact de_agree_enc. Qed.
+
+(* ... and with the restriction put on the schema instead of on sizes: for every schema without a
+   sequence of zero-width elements (dno_zero, the complement of F9's class, as in
+   C18_allocation_bounded) the decoding direction holds for every conforming value, of any size:
+   such a value's encoding is at least dmin s bytes long, so no count can exceed the bytes that
+   follow it *)
+Theorem C17_decode_agrees_any_size : forall widen d v s,
+  conforms d v s = true -> unamb v = true -> in_scope s = true -> dno_zero s = true ->
+  from_slice_dyn widen s (enc (erase v)) = DOk (json_of widen v).
+Proof. exact de_agree_enc_nz. Qed.
 
 (* the crate's private copies of the varint writers are the core's *)
 Theorem C17_private_copies_agree : dyn_writers = core_writers.
@@ -106,3 +117,4 @@ Print Assumptions C17_decoder_scalar_arms_are_the_source.
 Print Assumptions C17_decoder_scalar_arms_cover.
 Print Assumptions C17_composite_arms_are_the_source.
 Print Assumptions C17_helpers_are_the_source.
+Print Assumptions C17_decode_agrees_any_size.
